@@ -341,8 +341,8 @@ def run(chk: Check):
         "A graph criterion on the IR of the parser that runs: (W1) no rule evaluates an unmemoised rule twice at the same "
         "position when that rule leads back to it through unmemoised rules only (each such cycle multiplies work per nesting "
         "level — the packrat argument needs a memo barrier on every fork); (W2) a cache hit is O(1) and the wrapped rule runs "
-        "only on a miss, parse() runs at most two passes; (W3) every repetition body consumes a token. Quick = pass 1 "
-        "(alternatives without invalid_ rules); thorough adds pass 2 (diagnostic pass with invalid_ rules enabled).")
+        "only on a miss, parse() runs at most two passes; (W3) every repetition body consumes a token. Both passes are analysed: pass 1 "
+        "(alternatives without invalid_ rules) and pass 2 (diagnostic pass with invalid_ rules enabled).")
     chk.trusted = ["xpverif.pyir decompiler", "PEG determinism: equal item prefixes from the same start end at the same position"]
     chk.assumptions = ["positions are identified by syntactically equal item prefixes, so forks through differently spelled "
                        "but equivalent prefixes are not seen (the criterion is necessary, not sufficient, for linearity)",
@@ -352,7 +352,7 @@ def run(chk: Check):
     chk.units["rules"] = len(ir.rules)
     chk.units["memoised"] = sorted(r.name for r in ir.rules.values() if memoised(r))
     rule_w1(chk, ir, False, "W1-memo-barrier")
-    if chk.tier == "thorough":
+    if True:  # the diagnostic pass is as cheap to analyse as the first one: both tiers
         p1 = frozenset(o.key.split(":", 1)[1] for o in chk.obs if o.rule == "W1-memo-barrier" and o.status == "fail")
         rule_w1(chk, ir, True, "W1-memo-barrier-pass2", p1)
     rule_w2(chk)
